@@ -122,6 +122,8 @@ pub fn fees(seed: u64) -> Vec<Scenario> {
         add(Tier::Quick, format!("opp.{}", pz.clone().native().tag()), d, 800, 150, Box::new(t_open2(pz.clone().native(), false)));
         add(Tier::Quick, format!("inc.{}", pz.tag()), d, 600, 150, Box::new(t_open2(pz.clone(), true)));
     }
+    add(Tier::Quick, format!("opp.{}", pc.clone().native().sym_funds().tag()), d, 800, 150, Box::new(t_open2(pc.clone().native().sym_funds(), false)));
+    add(Tier::Quick, format!("opp.{}", P::new(prop, Sell, seed).fees().concrete_prefix().native().sym_funds().tag()), d, 800, 150, Box::new(t_open2(P::new(prop, Sell, seed).fees().concrete_prefix().native().sym_funds(), false)));
     add(Tier::Quick, format!("close.against.{}", pc.clone().native().tag()), d, 400, 150, Box::new(t_close(pc.clone().native(), false)));
     add(Tier::Quick, format!("close.with.{}", P::new(prop, Sell, seed).fees().concrete_prefix().native().tag()), d, 400, 150, Box::new(t_close(P::new(prop, Sell, seed).fees().concrete_prefix().native(), true)));
     add(Tier::Quick, format!("fund.close.{}", pc.clone().native().tag()), d, 600, 150, Box::new(t_fund(pc.clone().native(), 0)));
@@ -148,6 +150,9 @@ pub fn c04(seed: u64) -> Vec<Scenario> {
         add(Tier::Quick, format!("fund.close.{}", p.tag()), d, 600, 150, Box::new(t_fund(pc.clone(), 0)));
         add(Tier::Quick, format!("fund.close.{}", p.clone().fees().tag()), d, 600, 150, Box::new(t_fund(pc.clone().fees(), 0)));
         add(Tier::Quick, format!("fund.pclose.close.{}", p.tag()), d, 600, 150, Box::new(t_fund_pclose(pc.clone())));
+        add(Tier::Quick, format!("fund.increase.close.{}", p.tag()), d, 600, 150, Box::new(t_fund(pc.clone(), 5)));
+        add(Tier::Quick, format!("fund.open-after.reduce.close.{}", p.tag()), d, 600, 150, Box::new(t_fund(pc.clone(), 6)));
+        add(Tier::Quick, format!("fund.increase.close.{}", pc.clone().trend().fees().tag()), d, 600, 150, Box::new(t_fund(pc.clone().trend().fees(), 5)));
         add(Tier::Quick, format!("fund.liq.close.{}", p.tag()), d, 600, 150, Box::new(t_fund_liq(pc.clone(), true)));
         add(Tier::Quick, format!("fund.close.{}", pc.clone().trend().tag()), d, 600, 150, Box::new(t_fund(pc.clone().trend(), 0)));
         add(Tier::Quick, format!("fund.pclose.close.{}", pc.clone().trend().tag()), d, 600, 150, Box::new(t_fund_pclose(pc.clone().trend())));
@@ -227,6 +232,8 @@ pub fn liq(prop: &'static str, seed: u64) -> Vec<Scenario> {
             add(Tier::Quick, format!("{}.{}", rn, pc.clone().partial().oracle().tag()), d, 800, 150, Box::new(t_liq(pc.clone().partial().oracle(), ru)));
         }
         add(Tier::Quick, format!("shallow.{}", pc.clone().counter().tag()), d, 600, 150, Box::new(t_liq(pc.clone().counter(), 5)));
+        add(Tier::Quick, format!("shallow.{}", pc.clone().partial().caps_lowered().tag()), d, 400, 150, Box::new(t_liq(pc.clone().partial().caps_lowered(), 5)));
+        add(Tier::Quick, format!("deep.{}", pc.clone().caps_lowered().tag()), d, 400, 150, Box::new(t_liq(pc.clone().caps_lowered(), 45)));
         add(Tier::Quick, format!("shallow.{}", pc.clone().paused().tag()), d, 400, 150, Box::new(t_liq(pc.clone().paused(), 5)));
         add(Tier::Quick, format!("deep.{}", pc.clone().paused().tag()), d, 400, 150, Box::new(t_liq(pc.clone().paused(), 45)));
         add(Tier::Quick, format!("shallow.{}", pc.clone().fees().tag()), d, 600, 150, Box::new(t_liq(pc.clone().fees(), 5)));
